@@ -16,7 +16,7 @@ for f in glob.glob(f'{src}/demo{n}/*'):
 notes = ''
 if os.path.exists(f'{src}/notes{n}.md'):
     notes = open(f'{src}/notes{n}.md').read()
-prop = sid.split('-')[0].rstrip('bcd')
+prop = sid.split('-')[0].rstrip('bcde')
 meta = {
     "id": sid, "property": prop, "round": int(rnd),
     "origin": "independent sub-agent given only the property text and a scratch worktree of /repo (nothing from /verif)",
